@@ -169,7 +169,9 @@ class Diagonal(_AbstractMassMatrix):
         """Constructor for diagonal mass matrices."""
         self.name = "diagonal mass matrix"
 
-        diagonal = _numpy.asarray(diagonal)
+        # A float copy of its own: the caller's array is neither reshaped in place below
+        # nor kept by reference (inverse_diagonal is computed once)
+        diagonal = _numpy.array(diagonal, dtype=float)
 
         diagonal.shape = (diagonal.size, 1)
 
